@@ -48,11 +48,12 @@ variables loaded = [uu \in URLS |-> Absent],     \* Terminologies dict: url -> d
           nthr = 0,
           ndoc = 0,                               \* documents parsed so far (fresh ids)
           err = [pp \in Procs |-> "ok"],          \* exception that killed the process
-          results = <<>>,                         \* <<url, value>> of every load() the caller finished
+          results = <<>>,                         \* <<url, value, epoch, usable now>> of every load() the caller finished
           cachew = {},                            \* urls whose cache file was written
           cache = CacheInit,                      \* url -> "absent" | "fresh" | "stale"
           reload = FALSE,                         \* Terminologies.reload_cache
           epoch = 0,                              \* number of refresh calls the caller has begun
+          avail = Fetch,                          \* which resources can be fetched right now ("appear" makes a missing one available)
           ver = [uu \in URLS |-> 0],              \* how often the caller has changed the resource at its source ("touch")
           ret = [pp \in Procs |-> Absent];
 
@@ -80,7 +81,7 @@ procedure RawLoad(v)
   variables i = 1, doc = NoneV;
 {
  RFetch: if (cache[v] = "fresh" /\ ~reload) { skip; }               \* served from the cache, no fetch
-         else if (~Fetch[v]) { ret[self] := NoneV; return; }        \* a failed fetch leaves the cache alone
+         else if (~avail[v]) { ret[self] := NoneV; return; }        \* a failed fetch leaves the cache alone
          else { cachew := cachew \cup {v}; cache[v] := "fresh"; };
  RParse: if (~Parse[v]) { doc := NoneV; goto Pub; } else { ndoc := ndoc + 1; doc := ndoc; };
  Loop:   while (i <= Len(IncSeq(v))) {
@@ -131,7 +132,7 @@ procedure TRawLoad(tv)
   variables ti = 1, tdoc = NoneV;
 {
  TRFetch: if (cache[tv] = "fresh") { skip; }                          \* templates.cache_load knows no reload flag
-          else if (~Fetch[tv]) { ret[self] := NoneV; return; }
+          else if (~avail[tv]) { ret[self] := NoneV; return; }
           else { cachew := cachew \cup {tv}; cache[tv] := "fresh"; };
  TRParse: if (~Parse[tv]) { ret[self] := NoneV; return; } else { ndoc := ndoc + 1; tdoc := ndoc; };
  TLoop:   while (ti <= Len(IncSeq(tv))) {
@@ -163,7 +164,7 @@ process (M \in {Main})
  MLoop: while (k <= Len(Prog)) {
           if (Prog[k][1] = "load") {
              call Load(Prog[k][2]);
- MRes:       results := Append(results, <<Prog[k][2], ret[self], epoch>>);
+ MRes:       results := Append(results, <<Prog[k][2], ret[self], epoch, avail[Prog[k][2]] /\ Parse[Prog[k][2]]>>);
           } else if (Prog[k][1] = "refresh") {
              reload := TRUE; epoch := epoch + 1;
  RfClear:    loaded := [uu \in URLS |-> Absent];
@@ -171,9 +172,11 @@ process (M \in {Main})
  RfDone:     reload := FALSE;
           } else if (Prog[k][1] = "tload") {
              call TLoad(Prog[k][2]);
- TMRes:      results := Append(results, <<Prog[k][2], ret[self], epoch>>);
+ TMRes:      results := Append(results, <<Prog[k][2], ret[self], epoch, avail[Prog[k][2]] /\ Parse[Prog[k][2]]>>);
           } else if (Prog[k][1] = "tdeferred") {
              call TDeferred(Prog[k][2]);
+          } else if (Prog[k][1] = "appear") {
+ MAppear:    avail[Prog[k][2]] := TRUE;                  \* a resource that could not be fetched becomes available
           } else if (Prog[k][1] = "touch") {
  MTouch:     ver[Prog[k][2]] := ver[Prog[k][2]] + 1;     \* the resource changes at its source; caches and tables do not notice
           } else {
@@ -193,14 +196,14 @@ process (T \in Thr)
 \* BEGIN TRANSLATION
 CONSTANT defaultInitValue
 VARIABLES pc, loaded, loading, tstate, targ, tkind, tloaded, tloading, nthr, 
-          ndoc, err, results, cachew, cache, reload, epoch, ver, ret, stack, 
-          u, jt, v, i, doc, w, newt, st, tu, tjt, tv, ti, tdoc, tw, tnewt, 
-          tst, k
+          ndoc, err, results, cachew, cache, reload, epoch, avail, ver, ret, 
+          stack, u, jt, v, i, doc, w, newt, st, tu, tjt, tv, ti, tdoc, tw, 
+          tnewt, tst, k
 
 vars == << pc, loaded, loading, tstate, targ, tkind, tloaded, tloading, nthr, 
-           ndoc, err, results, cachew, cache, reload, epoch, ver, ret, stack, 
-           u, jt, v, i, doc, w, newt, st, tu, tjt, tv, ti, tdoc, tw, tnewt, 
-           tst, k >>
+           ndoc, err, results, cachew, cache, reload, epoch, avail, ver, ret, 
+           stack, u, jt, v, i, doc, w, newt, st, tu, tjt, tv, ti, tdoc, tw, 
+           tnewt, tst, k >>
 
 ProcSet == ({Main}) \cup (Thr)
 
@@ -220,6 +223,7 @@ Init == (* Global variables *)
         /\ cache = CacheInit
         /\ reload = FALSE
         /\ epoch = 0
+        /\ avail = Fetch
         /\ ver = [uu \in URLS |-> 0]
         /\ ret = [pp \in Procs |-> Absent]
         (* Procedure Load *)
@@ -256,9 +260,9 @@ LdIn(self) == /\ pc[self] = "LdIn"
                     ELSE /\ pc' = [pc EXCEPT ![self] = "LgIn"]
               /\ UNCHANGED << loaded, loading, tstate, targ, tkind, tloaded, 
                               tloading, nthr, ndoc, err, results, cachew, 
-                              cache, reload, epoch, ver, ret, stack, u, jt, v, 
-                              i, doc, w, newt, st, tu, tjt, tv, ti, tdoc, tw, 
-                              tnewt, tst, k >>
+                              cache, reload, epoch, avail, ver, ret, stack, u, 
+                              jt, v, i, doc, w, newt, st, tu, tjt, tv, ti, 
+                              tdoc, tw, tnewt, tst, k >>
 
 LdGet(self) == /\ pc[self] = "LdGet"
                /\ ret' = [ret EXCEPT ![self] = loaded[u[self]]]
@@ -268,8 +272,9 @@ LdGet(self) == /\ pc[self] = "LdGet"
                /\ stack' = [stack EXCEPT ![self] = Tail(stack[self])]
                /\ UNCHANGED << loaded, loading, tstate, targ, tkind, tloaded, 
                                tloading, nthr, ndoc, err, results, cachew, 
-                               cache, reload, epoch, ver, v, i, doc, w, newt, 
-                               st, tu, tjt, tv, ti, tdoc, tw, tnewt, tst, k >>
+                               cache, reload, epoch, avail, ver, v, i, doc, w, 
+                               newt, st, tu, tjt, tv, ti, tdoc, tw, tnewt, tst, 
+                               k >>
 
 LgIn(self) == /\ pc[self] = "LgIn"
               /\ IF loading[u[self]] # 0
@@ -277,9 +282,9 @@ LgIn(self) == /\ pc[self] = "LgIn"
                     ELSE /\ pc' = [pc EXCEPT ![self] = "Raw"]
               /\ UNCHANGED << loaded, loading, tstate, targ, tkind, tloaded, 
                               tloading, nthr, ndoc, err, results, cachew, 
-                              cache, reload, epoch, ver, ret, stack, u, jt, v, 
-                              i, doc, w, newt, st, tu, tjt, tv, ti, tdoc, tw, 
-                              tnewt, tst, k >>
+                              cache, reload, epoch, avail, ver, ret, stack, u, 
+                              jt, v, i, doc, w, newt, st, tu, tjt, tv, ti, 
+                              tdoc, tw, tnewt, tst, k >>
 
 LgGet(self) == /\ pc[self] = "LgGet"
                /\ jt' = [jt EXCEPT ![self] = loading[u[self]]]
@@ -290,9 +295,9 @@ LgGet(self) == /\ pc[self] = "LgGet"
                           /\ err' = err
                /\ UNCHANGED << loaded, loading, tstate, targ, tkind, tloaded, 
                                tloading, nthr, ndoc, results, cachew, cache, 
-                               reload, epoch, ver, ret, stack, u, v, i, doc, w, 
-                               newt, st, tu, tjt, tv, ti, tdoc, tw, tnewt, tst, 
-                               k >>
+                               reload, epoch, avail, ver, ret, stack, u, v, i, 
+                               doc, w, newt, st, tu, tjt, tv, ti, tdoc, tw, 
+                               tnewt, tst, k >>
 
 Join(self) == /\ pc[self] = "Join"
               /\ IF tstate[jt[self]] = "created"
@@ -304,18 +309,18 @@ Join(self) == /\ pc[self] = "Join"
                          /\ err' = err
               /\ UNCHANGED << loaded, loading, tstate, targ, tkind, tloaded, 
                               tloading, nthr, ndoc, results, cachew, cache, 
-                              reload, epoch, ver, ret, stack, u, jt, v, i, doc, 
-                              w, newt, st, tu, tjt, tv, ti, tdoc, tw, tnewt, 
-                              tst, k >>
+                              reload, epoch, avail, ver, ret, stack, u, jt, v, 
+                              i, doc, w, newt, st, tu, tjt, tv, ti, tdoc, tw, 
+                              tnewt, tst, k >>
 
 Joined(self) == /\ pc[self] = "Joined"
                 /\ tstate[jt[self]] = "done"
                 /\ pc' = [pc EXCEPT ![self] = "LgPop"]
                 /\ UNCHANGED << loaded, loading, tstate, targ, tkind, tloaded, 
                                 tloading, nthr, ndoc, err, results, cachew, 
-                                cache, reload, epoch, ver, ret, stack, u, jt, 
-                                v, i, doc, w, newt, st, tu, tjt, tv, ti, tdoc, 
-                                tw, tnewt, tst, k >>
+                                cache, reload, epoch, avail, ver, ret, stack, 
+                                u, jt, v, i, doc, w, newt, st, tu, tjt, tv, ti, 
+                                tdoc, tw, tnewt, tst, k >>
 
 LgPop(self) == /\ pc[self] = "LgPop"
                /\ loading' = [loading EXCEPT ![u[self]] = 0]
@@ -329,8 +334,8 @@ LgPop(self) == /\ pc[self] = "LgPop"
                /\ pc' = [pc EXCEPT ![self] = "LdIn"]
                /\ UNCHANGED << loaded, tstate, targ, tkind, tloaded, tloading, 
                                nthr, ndoc, err, results, cachew, cache, reload, 
-                               epoch, ver, ret, v, i, doc, w, newt, st, tu, 
-                               tjt, tv, ti, tdoc, tw, tnewt, tst, k >>
+                               epoch, avail, ver, ret, v, i, doc, w, newt, st, 
+                               tu, tjt, tv, ti, tdoc, tw, tnewt, tst, k >>
 
 LdRet(self) == /\ pc[self] = "LdRet"
                /\ pc' = [pc EXCEPT ![self] = Head(stack[self]).pc]
@@ -339,9 +344,9 @@ LdRet(self) == /\ pc[self] = "LdRet"
                /\ stack' = [stack EXCEPT ![self] = Tail(stack[self])]
                /\ UNCHANGED << loaded, loading, tstate, targ, tkind, tloaded, 
                                tloading, nthr, ndoc, err, results, cachew, 
-                               cache, reload, epoch, ver, ret, v, i, doc, w, 
-                               newt, st, tu, tjt, tv, ti, tdoc, tw, tnewt, tst, 
-                               k >>
+                               cache, reload, epoch, avail, ver, ret, v, i, 
+                               doc, w, newt, st, tu, tjt, tv, ti, tdoc, tw, 
+                               tnewt, tst, k >>
 
 Raw(self) == /\ pc[self] = "Raw"
              /\ /\ stack' = [stack EXCEPT ![self] = << [ procedure |->  "RawLoad",
@@ -356,8 +361,8 @@ Raw(self) == /\ pc[self] = "Raw"
              /\ pc' = [pc EXCEPT ![self] = "RFetch"]
              /\ UNCHANGED << loaded, loading, tstate, targ, tkind, tloaded, 
                              tloading, nthr, ndoc, err, results, cachew, cache, 
-                             reload, epoch, ver, ret, u, jt, w, newt, st, tu, 
-                             tjt, tv, ti, tdoc, tw, tnewt, tst, k >>
+                             reload, epoch, avail, ver, ret, u, jt, w, newt, 
+                             st, tu, tjt, tv, ti, tdoc, tw, tnewt, tst, k >>
 
 RawRet(self) == /\ pc[self] = "RawRet"
                 /\ pc' = [pc EXCEPT ![self] = Head(stack[self]).pc]
@@ -366,9 +371,9 @@ RawRet(self) == /\ pc[self] = "RawRet"
                 /\ stack' = [stack EXCEPT ![self] = Tail(stack[self])]
                 /\ UNCHANGED << loaded, loading, tstate, targ, tkind, tloaded, 
                                 tloading, nthr, ndoc, err, results, cachew, 
-                                cache, reload, epoch, ver, ret, v, i, doc, w, 
-                                newt, st, tu, tjt, tv, ti, tdoc, tw, tnewt, 
-                                tst, k >>
+                                cache, reload, epoch, avail, ver, ret, v, i, 
+                                doc, w, newt, st, tu, tjt, tv, ti, tdoc, tw, 
+                                tnewt, tst, k >>
 
 Halt(self) == /\ pc[self] = "Halt"
               /\ IF self # Main
@@ -378,18 +383,18 @@ Halt(self) == /\ pc[self] = "Halt"
               /\ pc' = [pc EXCEPT ![self] = "HDead"]
               /\ UNCHANGED << loaded, loading, targ, tkind, tloaded, tloading, 
                               nthr, ndoc, err, results, cachew, cache, reload, 
-                              epoch, ver, ret, stack, u, jt, v, i, doc, w, 
-                              newt, st, tu, tjt, tv, ti, tdoc, tw, tnewt, tst, 
-                              k >>
+                              epoch, avail, ver, ret, stack, u, jt, v, i, doc, 
+                              w, newt, st, tu, tjt, tv, ti, tdoc, tw, tnewt, 
+                              tst, k >>
 
 HDead(self) == /\ pc[self] = "HDead"
                /\ FALSE
                /\ pc' = [pc EXCEPT ![self] = "Error"]
                /\ UNCHANGED << loaded, loading, tstate, targ, tkind, tloaded, 
                                tloading, nthr, ndoc, err, results, cachew, 
-                               cache, reload, epoch, ver, ret, stack, u, jt, v, 
-                               i, doc, w, newt, st, tu, tjt, tv, ti, tdoc, tw, 
-                               tnewt, tst, k >>
+                               cache, reload, epoch, avail, ver, ret, stack, u, 
+                               jt, v, i, doc, w, newt, st, tu, tjt, tv, ti, 
+                               tdoc, tw, tnewt, tst, k >>
 
 Load(self) == LdIn(self) \/ LdGet(self) \/ LgIn(self) \/ LgGet(self)
                  \/ Join(self) \/ Joined(self) \/ LgPop(self)
@@ -402,7 +407,7 @@ RFetch(self) == /\ pc[self] = "RFetch"
                            /\ pc' = [pc EXCEPT ![self] = "RParse"]
                            /\ UNCHANGED << cachew, cache, ret, stack, v, i, 
                                            doc >>
-                      ELSE /\ IF ~Fetch[v[self]]
+                      ELSE /\ IF ~avail[v[self]]
                                  THEN /\ ret' = [ret EXCEPT ![self] = NoneV]
                                       /\ pc' = [pc EXCEPT ![self] = Head(stack[self]).pc]
                                       /\ i' = [i EXCEPT ![self] = Head(stack[self]).i]
@@ -416,8 +421,8 @@ RFetch(self) == /\ pc[self] = "RFetch"
                                       /\ UNCHANGED << ret, stack, v, i, doc >>
                 /\ UNCHANGED << loaded, loading, tstate, targ, tkind, tloaded, 
                                 tloading, nthr, ndoc, err, results, reload, 
-                                epoch, ver, u, jt, w, newt, st, tu, tjt, tv, 
-                                ti, tdoc, tw, tnewt, tst, k >>
+                                epoch, avail, ver, u, jt, w, newt, st, tu, tjt, 
+                                tv, ti, tdoc, tw, tnewt, tst, k >>
 
 RParse(self) == /\ pc[self] = "RParse"
                 /\ IF ~Parse[v[self]]
@@ -429,9 +434,9 @@ RParse(self) == /\ pc[self] = "RParse"
                            /\ pc' = [pc EXCEPT ![self] = "Loop"]
                 /\ UNCHANGED << loaded, loading, tstate, targ, tkind, tloaded, 
                                 tloading, nthr, err, results, cachew, cache, 
-                                reload, epoch, ver, ret, stack, u, jt, v, i, w, 
-                                newt, st, tu, tjt, tv, ti, tdoc, tw, tnewt, 
-                                tst, k >>
+                                reload, epoch, avail, ver, ret, stack, u, jt, 
+                                v, i, w, newt, st, tu, tjt, tv, ti, tdoc, tw, 
+                                tnewt, tst, k >>
 
 Loop(self) == /\ pc[self] = "Loop"
               /\ IF i[self] <= Len(IncSeq(v[self]))
@@ -449,8 +454,8 @@ Loop(self) == /\ pc[self] = "Loop"
                          /\ UNCHANGED << stack, w, newt, st >>
               /\ UNCHANGED << loaded, loading, tstate, targ, tkind, tloaded, 
                               tloading, nthr, ndoc, err, results, cachew, 
-                              cache, reload, epoch, ver, ret, u, jt, v, i, doc, 
-                              tu, tjt, tv, ti, tdoc, tw, tnewt, tst, k >>
+                              cache, reload, epoch, avail, ver, ret, u, jt, v, 
+                              i, doc, tu, tjt, tv, ti, tdoc, tw, tnewt, tst, k >>
 
 IncLoad(self) == /\ pc[self] = "IncLoad"
                  /\ /\ stack' = [stack EXCEPT ![self] = << [ procedure |->  "Load",
@@ -463,18 +468,18 @@ IncLoad(self) == /\ pc[self] = "IncLoad"
                  /\ pc' = [pc EXCEPT ![self] = "LdIn"]
                  /\ UNCHANGED << loaded, loading, tstate, targ, tkind, tloaded, 
                                  tloading, nthr, ndoc, err, results, cachew, 
-                                 cache, reload, epoch, ver, ret, v, i, doc, w, 
-                                 newt, st, tu, tjt, tv, ti, tdoc, tw, tnewt, 
-                                 tst, k >>
+                                 cache, reload, epoch, avail, ver, ret, v, i, 
+                                 doc, w, newt, st, tu, tjt, tv, ti, tdoc, tw, 
+                                 tnewt, tst, k >>
 
 IncNext(self) == /\ pc[self] = "IncNext"
                  /\ i' = [i EXCEPT ![self] = i[self] + 1]
                  /\ pc' = [pc EXCEPT ![self] = "Loop"]
                  /\ UNCHANGED << loaded, loading, tstate, targ, tkind, tloaded, 
                                  tloading, nthr, ndoc, err, results, cachew, 
-                                 cache, reload, epoch, ver, ret, stack, u, jt, 
-                                 v, doc, w, newt, st, tu, tjt, tv, ti, tdoc, 
-                                 tw, tnewt, tst, k >>
+                                 cache, reload, epoch, avail, ver, ret, stack, 
+                                 u, jt, v, doc, w, newt, st, tu, tjt, tv, ti, 
+                                 tdoc, tw, tnewt, tst, k >>
 
 Pub(self) == /\ pc[self] = "Pub"
              /\ loaded' = [loaded EXCEPT ![v[self]] = doc[self]]
@@ -486,8 +491,8 @@ Pub(self) == /\ pc[self] = "Pub"
              /\ stack' = [stack EXCEPT ![self] = Tail(stack[self])]
              /\ UNCHANGED << loading, tstate, targ, tkind, tloaded, tloading, 
                              nthr, ndoc, err, results, cachew, cache, reload, 
-                             epoch, ver, u, jt, w, newt, st, tu, tjt, tv, ti, 
-                             tdoc, tw, tnewt, tst, k >>
+                             epoch, avail, ver, u, jt, w, newt, st, tu, tjt, 
+                             tv, ti, tdoc, tw, tnewt, tst, k >>
 
 RawLoad(self) == RFetch(self) \/ RParse(self) \/ Loop(self)
                     \/ IncLoad(self) \/ IncNext(self) \/ Pub(self)
@@ -503,8 +508,9 @@ DfLdIn(self) == /\ pc[self] = "DfLdIn"
                            /\ UNCHANGED << stack, w, newt, st >>
                 /\ UNCHANGED << loaded, loading, tstate, targ, tkind, tloaded, 
                                 tloading, nthr, ndoc, err, results, cachew, 
-                                cache, reload, epoch, ver, ret, u, jt, v, i, 
-                                doc, tu, tjt, tv, ti, tdoc, tw, tnewt, tst, k >>
+                                cache, reload, epoch, avail, ver, ret, u, jt, 
+                                v, i, doc, tu, tjt, tv, ti, tdoc, tw, tnewt, 
+                                tst, k >>
 
 DfLgIn(self) == /\ pc[self] = "DfLgIn"
                 /\ IF loading[w[self]] # 0
@@ -522,17 +528,17 @@ DfLgIn(self) == /\ pc[self] = "DfLgIn"
                            /\ UNCHANGED << stack, w, st >>
                 /\ UNCHANGED << loaded, loading, tkind, tloaded, tloading, 
                                 ndoc, err, results, cachew, cache, reload, 
-                                epoch, ver, ret, u, jt, v, i, doc, tu, tjt, tv, 
-                                ti, tdoc, tw, tnewt, tst, k >>
+                                epoch, avail, ver, ret, u, jt, v, i, doc, tu, 
+                                tjt, tv, ti, tdoc, tw, tnewt, tst, k >>
 
 DfSet(self) == /\ pc[self] = "DfSet"
                /\ loading' = [loading EXCEPT ![w[self]] = newt[self]]
                /\ pc' = [pc EXCEPT ![self] = "DfGet"]
                /\ UNCHANGED << loaded, tstate, targ, tkind, tloaded, tloading, 
                                nthr, ndoc, err, results, cachew, cache, reload, 
-                               epoch, ver, ret, stack, u, jt, v, i, doc, w, 
-                               newt, st, tu, tjt, tv, ti, tdoc, tw, tnewt, tst, 
-                               k >>
+                               epoch, avail, ver, ret, stack, u, jt, v, i, doc, 
+                               w, newt, st, tu, tjt, tv, ti, tdoc, tw, tnewt, 
+                               tst, k >>
 
 DfGet(self) == /\ pc[self] = "DfGet"
                /\ st' = [st EXCEPT ![self] = loading[w[self]]]
@@ -543,9 +549,9 @@ DfGet(self) == /\ pc[self] = "DfGet"
                           /\ err' = err
                /\ UNCHANGED << loaded, loading, tstate, targ, tkind, tloaded, 
                                tloading, nthr, ndoc, results, cachew, cache, 
-                               reload, epoch, ver, ret, stack, u, jt, v, i, 
-                               doc, w, newt, tu, tjt, tv, ti, tdoc, tw, tnewt, 
-                               tst, k >>
+                               reload, epoch, avail, ver, ret, stack, u, jt, v, 
+                               i, doc, w, newt, tu, tjt, tv, ti, tdoc, tw, 
+                               tnewt, tst, k >>
 
 DfStart(self) == /\ pc[self] = "DfStart"
                  /\ IF tstate[st[self]] # "created"
@@ -561,8 +567,8 @@ DfStart(self) == /\ pc[self] = "DfStart"
                             /\ err' = err
                  /\ UNCHANGED << loaded, loading, targ, tkind, tloaded, 
                                  tloading, nthr, ndoc, results, cachew, cache, 
-                                 reload, epoch, ver, ret, u, jt, v, i, doc, tu, 
-                                 tjt, tv, ti, tdoc, tw, tnewt, tst, k >>
+                                 reload, epoch, avail, ver, ret, u, jt, v, i, 
+                                 doc, tu, tjt, tv, ti, tdoc, tw, tnewt, tst, k >>
 
 DHalt(self) == /\ pc[self] = "DHalt"
                /\ IF self # Main
@@ -572,18 +578,18 @@ DHalt(self) == /\ pc[self] = "DHalt"
                /\ pc' = [pc EXCEPT ![self] = "DDead"]
                /\ UNCHANGED << loaded, loading, targ, tkind, tloaded, tloading, 
                                nthr, ndoc, err, results, cachew, cache, reload, 
-                               epoch, ver, ret, stack, u, jt, v, i, doc, w, 
-                               newt, st, tu, tjt, tv, ti, tdoc, tw, tnewt, tst, 
-                               k >>
+                               epoch, avail, ver, ret, stack, u, jt, v, i, doc, 
+                               w, newt, st, tu, tjt, tv, ti, tdoc, tw, tnewt, 
+                               tst, k >>
 
 DDead(self) == /\ pc[self] = "DDead"
                /\ FALSE
                /\ pc' = [pc EXCEPT ![self] = "Error"]
                /\ UNCHANGED << loaded, loading, tstate, targ, tkind, tloaded, 
                                tloading, nthr, ndoc, err, results, cachew, 
-                               cache, reload, epoch, ver, ret, stack, u, jt, v, 
-                               i, doc, w, newt, st, tu, tjt, tv, ti, tdoc, tw, 
-                               tnewt, tst, k >>
+                               cache, reload, epoch, avail, ver, ret, stack, u, 
+                               jt, v, i, doc, w, newt, st, tu, tjt, tv, ti, 
+                               tdoc, tw, tnewt, tst, k >>
 
 Deferred(self) == DfLdIn(self) \/ DfLgIn(self) \/ DfSet(self)
                      \/ DfGet(self) \/ DfStart(self) \/ DHalt(self)
@@ -595,9 +601,9 @@ TLdIn(self) == /\ pc[self] = "TLdIn"
                      ELSE /\ pc' = [pc EXCEPT ![self] = "TLgIn"]
                /\ UNCHANGED << loaded, loading, tstate, targ, tkind, tloaded, 
                                tloading, nthr, ndoc, err, results, cachew, 
-                               cache, reload, epoch, ver, ret, stack, u, jt, v, 
-                               i, doc, w, newt, st, tu, tjt, tv, ti, tdoc, tw, 
-                               tnewt, tst, k >>
+                               cache, reload, epoch, avail, ver, ret, stack, u, 
+                               jt, v, i, doc, w, newt, st, tu, tjt, tv, ti, 
+                               tdoc, tw, tnewt, tst, k >>
 
 TLdGet(self) == /\ pc[self] = "TLdGet"
                 /\ ret' = [ret EXCEPT ![self] = tloaded[tu[self]]]
@@ -607,8 +613,9 @@ TLdGet(self) == /\ pc[self] = "TLdGet"
                 /\ stack' = [stack EXCEPT ![self] = Tail(stack[self])]
                 /\ UNCHANGED << loaded, loading, tstate, targ, tkind, tloaded, 
                                 tloading, nthr, ndoc, err, results, cachew, 
-                                cache, reload, epoch, ver, u, jt, v, i, doc, w, 
-                                newt, st, tv, ti, tdoc, tw, tnewt, tst, k >>
+                                cache, reload, epoch, avail, ver, u, jt, v, i, 
+                                doc, w, newt, st, tv, ti, tdoc, tw, tnewt, tst, 
+                                k >>
 
 TLgIn(self) == /\ pc[self] = "TLgIn"
                /\ IF tloading[tu[self]] # 0
@@ -616,9 +623,9 @@ TLgIn(self) == /\ pc[self] = "TLgIn"
                      ELSE /\ pc' = [pc EXCEPT ![self] = "TRaw"]
                /\ UNCHANGED << loaded, loading, tstate, targ, tkind, tloaded, 
                                tloading, nthr, ndoc, err, results, cachew, 
-                               cache, reload, epoch, ver, ret, stack, u, jt, v, 
-                               i, doc, w, newt, st, tu, tjt, tv, ti, tdoc, tw, 
-                               tnewt, tst, k >>
+                               cache, reload, epoch, avail, ver, ret, stack, u, 
+                               jt, v, i, doc, w, newt, st, tu, tjt, tv, ti, 
+                               tdoc, tw, tnewt, tst, k >>
 
 TLgGet(self) == /\ pc[self] = "TLgGet"
                 /\ tjt' = [tjt EXCEPT ![self] = tloading[tu[self]]]
@@ -629,9 +636,9 @@ TLgGet(self) == /\ pc[self] = "TLgGet"
                            /\ err' = err
                 /\ UNCHANGED << loaded, loading, tstate, targ, tkind, tloaded, 
                                 tloading, nthr, ndoc, results, cachew, cache, 
-                                reload, epoch, ver, ret, stack, u, jt, v, i, 
-                                doc, w, newt, st, tu, tv, ti, tdoc, tw, tnewt, 
-                                tst, k >>
+                                reload, epoch, avail, ver, ret, stack, u, jt, 
+                                v, i, doc, w, newt, st, tu, tv, ti, tdoc, tw, 
+                                tnewt, tst, k >>
 
 TJoin(self) == /\ pc[self] = "TJoin"
                /\ IF tstate[tjt[self]] = "created"
@@ -643,8 +650,8 @@ TJoin(self) == /\ pc[self] = "TJoin"
                           /\ err' = err
                /\ UNCHANGED << loaded, loading, tstate, targ, tkind, tloaded, 
                                tloading, nthr, ndoc, results, cachew, cache, 
-                               reload, epoch, ver, ret, stack, u, jt, v, i, 
-                               doc, w, newt, st, tu, tjt, tv, ti, tdoc, tw, 
+                               reload, epoch, avail, ver, ret, stack, u, jt, v, 
+                               i, doc, w, newt, st, tu, tjt, tv, ti, tdoc, tw, 
                                tnewt, tst, k >>
 
 TJoined(self) == /\ pc[self] = "TJoined"
@@ -652,9 +659,9 @@ TJoined(self) == /\ pc[self] = "TJoined"
                  /\ pc' = [pc EXCEPT ![self] = "TLgPop"]
                  /\ UNCHANGED << loaded, loading, tstate, targ, tkind, tloaded, 
                                  tloading, nthr, ndoc, err, results, cachew, 
-                                 cache, reload, epoch, ver, ret, stack, u, jt, 
-                                 v, i, doc, w, newt, st, tu, tjt, tv, ti, tdoc, 
-                                 tw, tnewt, tst, k >>
+                                 cache, reload, epoch, avail, ver, ret, stack, 
+                                 u, jt, v, i, doc, w, newt, st, tu, tjt, tv, 
+                                 ti, tdoc, tw, tnewt, tst, k >>
 
 TLgPop(self) == /\ pc[self] = "TLgPop"
                 /\ tloading' = [tloading EXCEPT ![tu[self]] = 0]
@@ -668,8 +675,9 @@ TLgPop(self) == /\ pc[self] = "TLgPop"
                 /\ pc' = [pc EXCEPT ![self] = "TLdIn"]
                 /\ UNCHANGED << loaded, loading, tstate, targ, tkind, tloaded, 
                                 nthr, ndoc, err, results, cachew, cache, 
-                                reload, epoch, ver, ret, u, jt, v, i, doc, w, 
-                                newt, st, tv, ti, tdoc, tw, tnewt, tst, k >>
+                                reload, epoch, avail, ver, ret, u, jt, v, i, 
+                                doc, w, newt, st, tv, ti, tdoc, tw, tnewt, tst, 
+                                k >>
 
 TLdRet(self) == /\ pc[self] = "TLdRet"
                 /\ pc' = [pc EXCEPT ![self] = Head(stack[self]).pc]
@@ -678,9 +686,9 @@ TLdRet(self) == /\ pc[self] = "TLdRet"
                 /\ stack' = [stack EXCEPT ![self] = Tail(stack[self])]
                 /\ UNCHANGED << loaded, loading, tstate, targ, tkind, tloaded, 
                                 tloading, nthr, ndoc, err, results, cachew, 
-                                cache, reload, epoch, ver, ret, u, jt, v, i, 
-                                doc, w, newt, st, tv, ti, tdoc, tw, tnewt, tst, 
-                                k >>
+                                cache, reload, epoch, avail, ver, ret, u, jt, 
+                                v, i, doc, w, newt, st, tv, ti, tdoc, tw, 
+                                tnewt, tst, k >>
 
 TRaw(self) == /\ pc[self] = "TRaw"
               /\ /\ stack' = [stack EXCEPT ![self] = << [ procedure |->  "TRawLoad",
@@ -695,8 +703,8 @@ TRaw(self) == /\ pc[self] = "TRaw"
               /\ pc' = [pc EXCEPT ![self] = "TRFetch"]
               /\ UNCHANGED << loaded, loading, tstate, targ, tkind, tloaded, 
                               tloading, nthr, ndoc, err, results, cachew, 
-                              cache, reload, epoch, ver, ret, u, jt, v, i, doc, 
-                              w, newt, st, tu, tjt, tw, tnewt, tst, k >>
+                              cache, reload, epoch, avail, ver, ret, u, jt, v, 
+                              i, doc, w, newt, st, tu, tjt, tw, tnewt, tst, k >>
 
 TRawRet(self) == /\ pc[self] = "TRawRet"
                  /\ pc' = [pc EXCEPT ![self] = Head(stack[self]).pc]
@@ -705,9 +713,9 @@ TRawRet(self) == /\ pc[self] = "TRawRet"
                  /\ stack' = [stack EXCEPT ![self] = Tail(stack[self])]
                  /\ UNCHANGED << loaded, loading, tstate, targ, tkind, tloaded, 
                                  tloading, nthr, ndoc, err, results, cachew, 
-                                 cache, reload, epoch, ver, ret, u, jt, v, i, 
-                                 doc, w, newt, st, tv, ti, tdoc, tw, tnewt, 
-                                 tst, k >>
+                                 cache, reload, epoch, avail, ver, ret, u, jt, 
+                                 v, i, doc, w, newt, st, tv, ti, tdoc, tw, 
+                                 tnewt, tst, k >>
 
 THalt(self) == /\ pc[self] = "THalt"
                /\ IF self # Main
@@ -717,18 +725,18 @@ THalt(self) == /\ pc[self] = "THalt"
                /\ pc' = [pc EXCEPT ![self] = "THDead"]
                /\ UNCHANGED << loaded, loading, targ, tkind, tloaded, tloading, 
                                nthr, ndoc, err, results, cachew, cache, reload, 
-                               epoch, ver, ret, stack, u, jt, v, i, doc, w, 
-                               newt, st, tu, tjt, tv, ti, tdoc, tw, tnewt, tst, 
-                               k >>
+                               epoch, avail, ver, ret, stack, u, jt, v, i, doc, 
+                               w, newt, st, tu, tjt, tv, ti, tdoc, tw, tnewt, 
+                               tst, k >>
 
 THDead(self) == /\ pc[self] = "THDead"
                 /\ FALSE
                 /\ pc' = [pc EXCEPT ![self] = "Error"]
                 /\ UNCHANGED << loaded, loading, tstate, targ, tkind, tloaded, 
                                 tloading, nthr, ndoc, err, results, cachew, 
-                                cache, reload, epoch, ver, ret, stack, u, jt, 
-                                v, i, doc, w, newt, st, tu, tjt, tv, ti, tdoc, 
-                                tw, tnewt, tst, k >>
+                                cache, reload, epoch, avail, ver, ret, stack, 
+                                u, jt, v, i, doc, w, newt, st, tu, tjt, tv, ti, 
+                                tdoc, tw, tnewt, tst, k >>
 
 TLoad(self) == TLdIn(self) \/ TLdGet(self) \/ TLgIn(self) \/ TLgGet(self)
                   \/ TJoin(self) \/ TJoined(self) \/ TLgPop(self)
@@ -741,7 +749,7 @@ TRFetch(self) == /\ pc[self] = "TRFetch"
                             /\ pc' = [pc EXCEPT ![self] = "TRParse"]
                             /\ UNCHANGED << cachew, cache, ret, stack, tv, ti, 
                                             tdoc >>
-                       ELSE /\ IF ~Fetch[tv[self]]
+                       ELSE /\ IF ~avail[tv[self]]
                                   THEN /\ ret' = [ret EXCEPT ![self] = NoneV]
                                        /\ pc' = [pc EXCEPT ![self] = Head(stack[self]).pc]
                                        /\ ti' = [ti EXCEPT ![self] = Head(stack[self]).ti]
@@ -756,8 +764,8 @@ TRFetch(self) == /\ pc[self] = "TRFetch"
                                                        tdoc >>
                  /\ UNCHANGED << loaded, loading, tstate, targ, tkind, tloaded, 
                                  tloading, nthr, ndoc, err, results, reload, 
-                                 epoch, ver, u, jt, v, i, doc, w, newt, st, tu, 
-                                 tjt, tw, tnewt, tst, k >>
+                                 epoch, avail, ver, u, jt, v, i, doc, w, newt, 
+                                 st, tu, tjt, tw, tnewt, tst, k >>
 
 TRParse(self) == /\ pc[self] = "TRParse"
                  /\ IF ~Parse[tv[self]]
@@ -774,8 +782,8 @@ TRParse(self) == /\ pc[self] = "TRParse"
                             /\ UNCHANGED << ret, stack, tv, ti >>
                  /\ UNCHANGED << loaded, loading, tstate, targ, tkind, tloaded, 
                                  tloading, nthr, err, results, cachew, cache, 
-                                 reload, epoch, ver, u, jt, v, i, doc, w, newt, 
-                                 st, tu, tjt, tw, tnewt, tst, k >>
+                                 reload, epoch, avail, ver, u, jt, v, i, doc, 
+                                 w, newt, st, tu, tjt, tw, tnewt, tst, k >>
 
 TLoop(self) == /\ pc[self] = "TLoop"
                /\ IF ti[self] <= Len(IncSeq(tv[self]))
@@ -793,8 +801,9 @@ TLoop(self) == /\ pc[self] = "TLoop"
                           /\ UNCHANGED << stack, w, newt, st >>
                /\ UNCHANGED << loaded, loading, tstate, targ, tkind, tloaded, 
                                tloading, nthr, ndoc, err, results, cachew, 
-                               cache, reload, epoch, ver, ret, u, jt, v, i, 
-                               doc, tu, tjt, tv, ti, tdoc, tw, tnewt, tst, k >>
+                               cache, reload, epoch, avail, ver, ret, u, jt, v, 
+                               i, doc, tu, tjt, tv, ti, tdoc, tw, tnewt, tst, 
+                               k >>
 
 TIncLoad(self) == /\ pc[self] = "TIncLoad"
                   /\ /\ stack' = [stack EXCEPT ![self] = << [ procedure |->  "Load",
@@ -807,18 +816,18 @@ TIncLoad(self) == /\ pc[self] = "TIncLoad"
                   /\ pc' = [pc EXCEPT ![self] = "LdIn"]
                   /\ UNCHANGED << loaded, loading, tstate, targ, tkind, 
                                   tloaded, tloading, nthr, ndoc, err, results, 
-                                  cachew, cache, reload, epoch, ver, ret, v, i, 
-                                  doc, w, newt, st, tu, tjt, tv, ti, tdoc, tw, 
-                                  tnewt, tst, k >>
+                                  cachew, cache, reload, epoch, avail, ver, 
+                                  ret, v, i, doc, w, newt, st, tu, tjt, tv, ti, 
+                                  tdoc, tw, tnewt, tst, k >>
 
 TIncNext(self) == /\ pc[self] = "TIncNext"
                   /\ ti' = [ti EXCEPT ![self] = ti[self] + 1]
                   /\ pc' = [pc EXCEPT ![self] = "TLoop"]
                   /\ UNCHANGED << loaded, loading, tstate, targ, tkind, 
                                   tloaded, tloading, nthr, ndoc, err, results, 
-                                  cachew, cache, reload, epoch, ver, ret, 
-                                  stack, u, jt, v, i, doc, w, newt, st, tu, 
-                                  tjt, tv, tdoc, tw, tnewt, tst, k >>
+                                  cachew, cache, reload, epoch, avail, ver, 
+                                  ret, stack, u, jt, v, i, doc, w, newt, st, 
+                                  tu, tjt, tv, tdoc, tw, tnewt, tst, k >>
 
 TPub(self) == /\ pc[self] = "TPub"
               /\ tloaded' = [tloaded EXCEPT ![tv[self]] = tdoc[self]]
@@ -830,8 +839,8 @@ TPub(self) == /\ pc[self] = "TPub"
               /\ stack' = [stack EXCEPT ![self] = Tail(stack[self])]
               /\ UNCHANGED << loaded, loading, tstate, targ, tkind, tloading, 
                               nthr, ndoc, err, results, cachew, cache, reload, 
-                              epoch, ver, u, jt, v, i, doc, w, newt, st, tu, 
-                              tjt, tw, tnewt, tst, k >>
+                              epoch, avail, ver, u, jt, v, i, doc, w, newt, st, 
+                              tu, tjt, tw, tnewt, tst, k >>
 
 TRawLoad(self) == TRFetch(self) \/ TRParse(self) \/ TLoop(self)
                      \/ TIncLoad(self) \/ TIncNext(self) \/ TPub(self)
@@ -847,8 +856,9 @@ TDfLdIn(self) == /\ pc[self] = "TDfLdIn"
                             /\ UNCHANGED << stack, tw, tnewt, tst >>
                  /\ UNCHANGED << loaded, loading, tstate, targ, tkind, tloaded, 
                                  tloading, nthr, ndoc, err, results, cachew, 
-                                 cache, reload, epoch, ver, ret, u, jt, v, i, 
-                                 doc, w, newt, st, tu, tjt, tv, ti, tdoc, k >>
+                                 cache, reload, epoch, avail, ver, ret, u, jt, 
+                                 v, i, doc, w, newt, st, tu, tjt, tv, ti, tdoc, 
+                                 k >>
 
 TDfLgIn(self) == /\ pc[self] = "TDfLgIn"
                  /\ IF tloading[tw[self]] # 0
@@ -866,18 +876,18 @@ TDfLgIn(self) == /\ pc[self] = "TDfLgIn"
                             /\ pc' = [pc EXCEPT ![self] = "TDfSet"]
                             /\ UNCHANGED << stack, tw, tst >>
                  /\ UNCHANGED << loaded, loading, tloaded, tloading, ndoc, err, 
-                                 results, cachew, cache, reload, epoch, ver, 
-                                 ret, u, jt, v, i, doc, w, newt, st, tu, tjt, 
-                                 tv, ti, tdoc, k >>
+                                 results, cachew, cache, reload, epoch, avail, 
+                                 ver, ret, u, jt, v, i, doc, w, newt, st, tu, 
+                                 tjt, tv, ti, tdoc, k >>
 
 TDfSet(self) == /\ pc[self] = "TDfSet"
                 /\ tloading' = [tloading EXCEPT ![tw[self]] = tnewt[self]]
                 /\ pc' = [pc EXCEPT ![self] = "TDfGet"]
                 /\ UNCHANGED << loaded, loading, tstate, targ, tkind, tloaded, 
                                 nthr, ndoc, err, results, cachew, cache, 
-                                reload, epoch, ver, ret, stack, u, jt, v, i, 
-                                doc, w, newt, st, tu, tjt, tv, ti, tdoc, tw, 
-                                tnewt, tst, k >>
+                                reload, epoch, avail, ver, ret, stack, u, jt, 
+                                v, i, doc, w, newt, st, tu, tjt, tv, ti, tdoc, 
+                                tw, tnewt, tst, k >>
 
 TDfGet(self) == /\ pc[self] = "TDfGet"
                 /\ tst' = [tst EXCEPT ![self] = tloading[tw[self]]]
@@ -888,9 +898,9 @@ TDfGet(self) == /\ pc[self] = "TDfGet"
                            /\ err' = err
                 /\ UNCHANGED << loaded, loading, tstate, targ, tkind, tloaded, 
                                 tloading, nthr, ndoc, results, cachew, cache, 
-                                reload, epoch, ver, ret, stack, u, jt, v, i, 
-                                doc, w, newt, st, tu, tjt, tv, ti, tdoc, tw, 
-                                tnewt, k >>
+                                reload, epoch, avail, ver, ret, stack, u, jt, 
+                                v, i, doc, w, newt, st, tu, tjt, tv, ti, tdoc, 
+                                tw, tnewt, k >>
 
 TDfStart(self) == /\ pc[self] = "TDfStart"
                   /\ IF tstate[tst[self]] # "created"
@@ -906,8 +916,8 @@ TDfStart(self) == /\ pc[self] = "TDfStart"
                              /\ err' = err
                   /\ UNCHANGED << loaded, loading, targ, tkind, tloaded, 
                                   tloading, nthr, ndoc, results, cachew, cache, 
-                                  reload, epoch, ver, ret, u, jt, v, i, doc, w, 
-                                  newt, st, tu, tjt, tv, ti, tdoc, k >>
+                                  reload, epoch, avail, ver, ret, u, jt, v, i, 
+                                  doc, w, newt, st, tu, tjt, tv, ti, tdoc, k >>
 
 TDHalt(self) == /\ pc[self] = "TDHalt"
                 /\ IF self # Main
@@ -917,18 +927,18 @@ TDHalt(self) == /\ pc[self] = "TDHalt"
                 /\ pc' = [pc EXCEPT ![self] = "TDDead"]
                 /\ UNCHANGED << loaded, loading, targ, tkind, tloaded, 
                                 tloading, nthr, ndoc, err, results, cachew, 
-                                cache, reload, epoch, ver, ret, stack, u, jt, 
-                                v, i, doc, w, newt, st, tu, tjt, tv, ti, tdoc, 
-                                tw, tnewt, tst, k >>
+                                cache, reload, epoch, avail, ver, ret, stack, 
+                                u, jt, v, i, doc, w, newt, st, tu, tjt, tv, ti, 
+                                tdoc, tw, tnewt, tst, k >>
 
 TDDead(self) == /\ pc[self] = "TDDead"
                 /\ FALSE
                 /\ pc' = [pc EXCEPT ![self] = "Error"]
                 /\ UNCHANGED << loaded, loading, tstate, targ, tkind, tloaded, 
                                 tloading, nthr, ndoc, err, results, cachew, 
-                                cache, reload, epoch, ver, ret, stack, u, jt, 
-                                v, i, doc, w, newt, st, tu, tjt, tv, ti, tdoc, 
-                                tw, tnewt, tst, k >>
+                                cache, reload, epoch, avail, ver, ret, stack, 
+                                u, jt, v, i, doc, w, newt, st, tu, tjt, tv, ti, 
+                                tdoc, tw, tnewt, tst, k >>
 
 TDeferred(self) == TDfLdIn(self) \/ TDfLgIn(self) \/ TDfSet(self)
                       \/ TDfGet(self) \/ TDfStart(self) \/ TDHalt(self)
@@ -939,9 +949,9 @@ MBegin(self) == /\ pc[self] = "MBegin"
                 /\ pc' = [pc EXCEPT ![self] = "MLoop"]
                 /\ UNCHANGED << loaded, loading, tstate, targ, tkind, tloaded, 
                                 tloading, nthr, ndoc, err, results, cachew, 
-                                cache, reload, epoch, ver, ret, stack, u, jt, 
-                                v, i, doc, w, newt, st, tu, tjt, tv, ti, tdoc, 
-                                tw, tnewt, tst, k >>
+                                cache, reload, epoch, avail, ver, ret, stack, 
+                                u, jt, v, i, doc, w, newt, st, tu, tjt, tv, ti, 
+                                tdoc, tw, tnewt, tst, k >>
 
 MLoop(self) == /\ pc[self] = "MLoop"
                /\ IF k[self] <= Len(Prog)
@@ -993,22 +1003,28 @@ MLoop(self) == /\ pc[self] = "MLoop"
                                                                       /\ UNCHANGED << w, 
                                                                                       newt, 
                                                                                       st >>
-                                                                 ELSE /\ IF Prog[k[self]][1] = "touch"
-                                                                            THEN /\ pc' = [pc EXCEPT ![self] = "MTouch"]
+                                                                 ELSE /\ IF Prog[k[self]][1] = "appear"
+                                                                            THEN /\ pc' = [pc EXCEPT ![self] = "MAppear"]
                                                                                  /\ UNCHANGED << stack, 
                                                                                                  w, 
                                                                                                  newt, 
                                                                                                  st >>
-                                                                            ELSE /\ /\ stack' = [stack EXCEPT ![self] = << [ procedure |->  "Deferred",
-                                                                                                                             pc        |->  "MNext",
-                                                                                                                             newt      |->  newt[self],
-                                                                                                                             st        |->  st[self],
-                                                                                                                             w         |->  w[self] ] >>
-                                                                                                                         \o stack[self]]
-                                                                                    /\ w' = [w EXCEPT ![self] = Prog[k[self]][2]]
-                                                                                 /\ newt' = [newt EXCEPT ![self] = 0]
-                                                                                 /\ st' = [st EXCEPT ![self] = 0]
-                                                                                 /\ pc' = [pc EXCEPT ![self] = "DfLdIn"]
+                                                                            ELSE /\ IF Prog[k[self]][1] = "touch"
+                                                                                       THEN /\ pc' = [pc EXCEPT ![self] = "MTouch"]
+                                                                                            /\ UNCHANGED << stack, 
+                                                                                                            w, 
+                                                                                                            newt, 
+                                                                                                            st >>
+                                                                                       ELSE /\ /\ stack' = [stack EXCEPT ![self] = << [ procedure |->  "Deferred",
+                                                                                                                                        pc        |->  "MNext",
+                                                                                                                                        newt      |->  newt[self],
+                                                                                                                                        st        |->  st[self],
+                                                                                                                                        w         |->  w[self] ] >>
+                                                                                                                                    \o stack[self]]
+                                                                                               /\ w' = [w EXCEPT ![self] = Prog[k[self]][2]]
+                                                                                            /\ newt' = [newt EXCEPT ![self] = 0]
+                                                                                            /\ st' = [st EXCEPT ![self] = 0]
+                                                                                            /\ pc' = [pc EXCEPT ![self] = "DfLdIn"]
                                                                       /\ UNCHANGED << tw, 
                                                                                       tnewt, 
                                                                                       tst >>
@@ -1021,25 +1037,26 @@ MLoop(self) == /\ pc[self] = "MLoop"
                                           st, tu, tjt, tw, tnewt, tst >>
                /\ UNCHANGED << loaded, loading, tstate, targ, tkind, tloaded, 
                                tloading, nthr, ndoc, err, results, cachew, 
-                               cache, ver, ret, v, i, doc, tv, ti, tdoc, k >>
+                               cache, avail, ver, ret, v, i, doc, tv, ti, tdoc, 
+                               k >>
 
 MNext(self) == /\ pc[self] = "MNext"
                /\ k' = [k EXCEPT ![self] = k[self] + 1]
                /\ pc' = [pc EXCEPT ![self] = "MLoop"]
                /\ UNCHANGED << loaded, loading, tstate, targ, tkind, tloaded, 
                                tloading, nthr, ndoc, err, results, cachew, 
-                               cache, reload, epoch, ver, ret, stack, u, jt, v, 
-                               i, doc, w, newt, st, tu, tjt, tv, ti, tdoc, tw, 
-                               tnewt, tst >>
+                               cache, reload, epoch, avail, ver, ret, stack, u, 
+                               jt, v, i, doc, w, newt, st, tu, tjt, tv, ti, 
+                               tdoc, tw, tnewt, tst >>
 
 MRes(self) == /\ pc[self] = "MRes"
-              /\ results' = Append(results, <<Prog[k[self]][2], ret[self], epoch>>)
+              /\ results' = Append(results, <<Prog[k[self]][2], ret[self], epoch, avail[Prog[k[self]][2]] /\ Parse[Prog[k[self]][2]]>>)
               /\ pc' = [pc EXCEPT ![self] = "MNext"]
               /\ UNCHANGED << loaded, loading, tstate, targ, tkind, tloaded, 
                               tloading, nthr, ndoc, err, cachew, cache, reload, 
-                              epoch, ver, ret, stack, u, jt, v, i, doc, w, 
-                              newt, st, tu, tjt, tv, ti, tdoc, tw, tnewt, tst, 
-                              k >>
+                              epoch, avail, ver, ret, stack, u, jt, v, i, doc, 
+                              w, newt, st, tu, tjt, tv, ti, tdoc, tw, tnewt, 
+                              tst, k >>
 
 RfClear(self) == /\ pc[self] = "RfClear"
                  /\ loaded' = [uu \in URLS |-> Absent]
@@ -1053,49 +1070,58 @@ RfClear(self) == /\ pc[self] = "RfClear"
                  /\ pc' = [pc EXCEPT ![self] = "LdIn"]
                  /\ UNCHANGED << loading, tstate, targ, tkind, tloaded, 
                                  tloading, nthr, ndoc, err, results, cachew, 
-                                 cache, reload, epoch, ver, ret, v, i, doc, w, 
-                                 newt, st, tu, tjt, tv, ti, tdoc, tw, tnewt, 
-                                 tst, k >>
+                                 cache, reload, epoch, avail, ver, ret, v, i, 
+                                 doc, w, newt, st, tu, tjt, tv, ti, tdoc, tw, 
+                                 tnewt, tst, k >>
 
 RfDone(self) == /\ pc[self] = "RfDone"
                 /\ reload' = FALSE
                 /\ pc' = [pc EXCEPT ![self] = "MNext"]
                 /\ UNCHANGED << loaded, loading, tstate, targ, tkind, tloaded, 
                                 tloading, nthr, ndoc, err, results, cachew, 
-                                cache, epoch, ver, ret, stack, u, jt, v, i, 
-                                doc, w, newt, st, tu, tjt, tv, ti, tdoc, tw, 
+                                cache, epoch, avail, ver, ret, stack, u, jt, v, 
+                                i, doc, w, newt, st, tu, tjt, tv, ti, tdoc, tw, 
                                 tnewt, tst, k >>
 
 TMRes(self) == /\ pc[self] = "TMRes"
-               /\ results' = Append(results, <<Prog[k[self]][2], ret[self], epoch>>)
+               /\ results' = Append(results, <<Prog[k[self]][2], ret[self], epoch, avail[Prog[k[self]][2]] /\ Parse[Prog[k[self]][2]]>>)
                /\ pc' = [pc EXCEPT ![self] = "MNext"]
                /\ UNCHANGED << loaded, loading, tstate, targ, tkind, tloaded, 
                                tloading, nthr, ndoc, err, cachew, cache, 
-                               reload, epoch, ver, ret, stack, u, jt, v, i, 
-                               doc, w, newt, st, tu, tjt, tv, ti, tdoc, tw, 
+                               reload, epoch, avail, ver, ret, stack, u, jt, v, 
+                               i, doc, w, newt, st, tu, tjt, tv, ti, tdoc, tw, 
                                tnewt, tst, k >>
+
+MAppear(self) == /\ pc[self] = "MAppear"
+                 /\ avail' = [avail EXCEPT ![Prog[k[self]][2]] = TRUE]
+                 /\ pc' = [pc EXCEPT ![self] = "MNext"]
+                 /\ UNCHANGED << loaded, loading, tstate, targ, tkind, tloaded, 
+                                 tloading, nthr, ndoc, err, results, cachew, 
+                                 cache, reload, epoch, ver, ret, stack, u, jt, 
+                                 v, i, doc, w, newt, st, tu, tjt, tv, ti, tdoc, 
+                                 tw, tnewt, tst, k >>
 
 MTouch(self) == /\ pc[self] = "MTouch"
                 /\ ver' = [ver EXCEPT ![Prog[k[self]][2]] = ver[Prog[k[self]][2]] + 1]
                 /\ pc' = [pc EXCEPT ![self] = "MNext"]
                 /\ UNCHANGED << loaded, loading, tstate, targ, tkind, tloaded, 
                                 tloading, nthr, ndoc, err, results, cachew, 
-                                cache, reload, epoch, ret, stack, u, jt, v, i, 
-                                doc, w, newt, st, tu, tjt, tv, ti, tdoc, tw, 
-                                tnewt, tst, k >>
+                                cache, reload, epoch, avail, ret, stack, u, jt, 
+                                v, i, doc, w, newt, st, tu, tjt, tv, ti, tdoc, 
+                                tw, tnewt, tst, k >>
 
 M(self) == MBegin(self) \/ MLoop(self) \/ MNext(self) \/ MRes(self)
               \/ RfClear(self) \/ RfDone(self) \/ TMRes(self)
-              \/ MTouch(self)
+              \/ MAppear(self) \/ MTouch(self)
 
 TBegin(self) == /\ pc[self] = "TBegin"
                 /\ tstate[self] = "running"
                 /\ pc' = [pc EXCEPT ![self] = "TRun"]
                 /\ UNCHANGED << loaded, loading, tstate, targ, tkind, tloaded, 
                                 tloading, nthr, ndoc, err, results, cachew, 
-                                cache, reload, epoch, ver, ret, stack, u, jt, 
-                                v, i, doc, w, newt, st, tu, tjt, tv, ti, tdoc, 
-                                tw, tnewt, tst, k >>
+                                cache, reload, epoch, avail, ver, ret, stack, 
+                                u, jt, v, i, doc, w, newt, st, tu, tjt, tv, ti, 
+                                tdoc, tw, tnewt, tst, k >>
 
 TRun(self) == /\ pc[self] = "TRun"
               /\ IF tkind[self] = "tmpl"
@@ -1123,17 +1149,17 @@ TRun(self) == /\ pc[self] = "TRun"
                          /\ UNCHANGED << tv, ti, tdoc >>
               /\ UNCHANGED << loaded, loading, tstate, targ, tkind, tloaded, 
                               tloading, nthr, ndoc, err, results, cachew, 
-                              cache, reload, epoch, ver, ret, u, jt, w, newt, 
-                              st, tu, tjt, tw, tnewt, tst, k >>
+                              cache, reload, epoch, avail, ver, ret, u, jt, w, 
+                              newt, st, tu, tjt, tw, tnewt, tst, k >>
 
 TDone(self) == /\ pc[self] = "TDone"
                /\ tstate' = [tstate EXCEPT ![self] = "done"]
                /\ pc' = [pc EXCEPT ![self] = "Done"]
                /\ UNCHANGED << loaded, loading, targ, tkind, tloaded, tloading, 
                                nthr, ndoc, err, results, cachew, cache, reload, 
-                               epoch, ver, ret, stack, u, jt, v, i, doc, w, 
-                               newt, st, tu, tjt, tv, ti, tdoc, tw, tnewt, tst, 
-                               k >>
+                               epoch, avail, ver, ret, stack, u, jt, v, i, doc, 
+                               w, newt, st, tu, tjt, tv, ti, tdoc, tw, tnewt, 
+                               tst, k >>
 
 T(self) == TBegin(self) \/ TRun(self) \/ TDone(self)
 
